@@ -25,6 +25,12 @@ import (
 
 	hubtypes "github.com/sentinel-official/hub/v12/types"
 	hubutils "github.com/sentinel-official/hub/v12/utils"
+	deposittypes "github.com/sentinel-official/hub/v12/x/deposit/types"
+	minttypes "github.com/sentinel-official/hub/v12/x/mint/types"
+	nodetypes "github.com/sentinel-official/hub/v12/x/node/types"
+	plantypes "github.com/sentinel-official/hub/v12/x/plan/types"
+	sessiontypes "github.com/sentinel-official/hub/v12/x/session/types"
+	subscriptiontypes "github.com/sentinel-official/hub/v12/x/subscription/types"
 )
 
 var r *rand.Rand
@@ -155,6 +161,59 @@ func main() {
 				}))
 			}
 		case "C17":
+			if r.Intn(3) == 0 {
+				// the repository's own key constructors on boundary arguments (all component shapes:
+				// time|addr, time|id, id|addr, addr|id, addr|addr|id, id|addr|id, addr, time)
+				t := boundaryTime()
+				sec, ns := new(big.Int), new(big.Int)
+				sec.DivMod(t, big.NewInt(1000000000), ns)
+				tm := time.Unix(sec.Int64(), ns.Int64()).UTC()
+				mk := func() []byte {
+					ln := []int{1, 2, 19, 20, 21, 32, 255}[r.Intn(7)]
+					bz := make([]byte, ln)
+					r.Read(bz)
+					if r.Intn(4) == 0 {
+						for j := range bz {
+							bz[j] = []byte{0x00, 0xff, 0x03}[r.Intn(3)]
+						}
+					}
+					return bz
+				}
+				a, b := mk(), mk()
+				i, j := []uint64{0, 1, 255, 256, 1<<32 - 1, 1 << 32, 1<<63 - 1, 1 << 63, 1<<64 - 1}[r.Intn(9)], uint64(r.Int63())
+				fn := []string{"node.NodeForInactiveAtKey", "subscription.SubscriptionForInactiveAtKey", "subscription.PayoutForNextAtKey",
+					"session.SessionForInactiveAtKey", "mint.InflationKey", "subscription.AllocationKey", "session.SessionForAllocationKey",
+					"subscription.PayoutForAccountByNodeKey", "plan.PlanForProviderKey", "node.NodeForPlanKey", "deposit.DepositKey"}[r.Intn(11)]
+				emit(fmt.Sprintf("key f=%s t=%s a=%s b=%s i=%d j=%d", fn, t.String(), hx(a), hx(b), i, j), try(func() string {
+					var k []byte
+					switch fn {
+					case "node.NodeForInactiveAtKey":
+						k = nodetypes.NodeForInactiveAtKey(tm, a)
+					case "subscription.SubscriptionForInactiveAtKey":
+						k = subscriptiontypes.SubscriptionForInactiveAtKey(tm, i)
+					case "subscription.PayoutForNextAtKey":
+						k = subscriptiontypes.PayoutForNextAtKey(tm, i)
+					case "session.SessionForInactiveAtKey":
+						k = sessiontypes.SessionForInactiveAtKey(tm, i)
+					case "mint.InflationKey":
+						k = minttypes.InflationKey(tm)
+					case "subscription.AllocationKey":
+						k = subscriptiontypes.AllocationKey(i, a)
+					case "session.SessionForAllocationKey":
+						k = sessiontypes.SessionForAllocationKey(i, a, j)
+					case "subscription.PayoutForAccountByNodeKey":
+						k = subscriptiontypes.PayoutForAccountByNodeKey(a, b, i)
+					case "plan.PlanForProviderKey":
+						k = plantypes.PlanForProviderKey(a, i)
+					case "node.NodeForPlanKey":
+						k = nodetypes.NodeForPlanKey(i, a)
+					case "deposit.DepositKey":
+						k = deposittypes.DepositKey(a)
+					}
+					return "ok " + hx(k)
+				}))
+				continue
+			}
 			switch r.Intn(4) {
 			case 0, 1:
 				role := []string{"acc", "node", "prov"}[r.Intn(3)]
